@@ -1254,15 +1254,6 @@ fn deep_cases() -> Vec<Case> {
     out
 }
 
-/// Entry point of the libFuzzer target `pbt_c18` (fuzz/fuzz_targets/pbt_c18.rs includes this file as a module).
-#[allow(dead_code)]
-pub fn fuzz_one(data: &[u8]) -> Vec<Failure> {
-    thread_local! {
-        static S: (BoxedStrategy<<Random as Part>::Case>, std::collections::HashSet<String>) = (Random.strategy(Tier::Thorough), open_known_sigs_of("C18"));
-    }
-    S.with(|(st, known)| kvh::engine::fuzz_one(&Random, st, data, known))
-}
-
 fn main() {
     let mut s = Session::start(
         "C18",
@@ -1283,7 +1274,5 @@ fn main() {
     s.run_enum(&Deep, deep_cases().into_iter(), true);
     s.run(&Random);
     s.run(&Filters);
-    // coverage-guided search over the same strategy and oracle (libFuzzer drives the random stream): thorough tier
-    s.fuzz_campaign(&Random, "libfuzzer:random", "pbt_c18", 3_000, 8, 8192);
     std::process::exit(s.finish());
 }
